@@ -150,6 +150,11 @@ pub enum Msg {
     Call(u32, RpcReplyPort<u32>),
 }
 
+// with ractor's `cluster` feature (needed by other binaries of this package) there is no blanket
+// `Message` impl: a local-only message type needs the empty one
+#[cfg(feature = "cluster")]
+impl ractor::Message for Msg {}
+
 #[derive(Clone, Debug, PartialEq, Eq)]
 pub enum Fx {
     SendSelf(u32),
